@@ -16,6 +16,12 @@ G  per batch the harness generates a real Lua echo module (fragments embedded as
    spelling) x depth 1..2 x (called from wikitext | through frame:expandTemplate{title=..}) and
    gives the title the parent frame must carry: the stored title of the page whose body is
    expanded.  The harness installs exactly the add_page calls TLC lists (STORE line).
+   Hole family: argument vectors whose numeric keys leave holes (explicit numeric names beside positional
+   arguments in every order, no key 1, names 0 / 00 / -1 that stay strings) x the way a module reads a frame's
+   arguments (args[n], args["n"], getArgument, ipairs, pairs, argumentPairs, next, in the orders TLC lists)
+   x the frame that is read (own / parent / one made by frame:newChild) x depth 0..2 (per case one wrapper
+   template forwarding the same shape).  Every read must be a view of the one argument map TLC gives (HView):
+   the enumerations yield exactly the map as a SET (their order is not specified), ipairs stops at the first hole.
 """
 from __future__ import annotations
 
@@ -29,7 +35,7 @@ from common import Outcome, Scratch, pmap, tlc
 from expander import lua_long
 
 PID = "C08"
-SEP, RS, US = "\x1d", "\x1e", "\x1f"
+SEP, RS, US, FS = "\x1d", "\x1e", "\x1f", "\x1c"
 
 PRELUDE = r"""
 local p = {}
@@ -65,6 +71,108 @@ function p.%(fn)s(frame)
     .. "\29"
 end
 """
+
+# the readers of the hole family; probes (HN, HS, HC) and the orders (one function h<j> per order) come from TLC's
+# HOLES line.  Loops over the probe lists are numeric on purpose (they must not depend on the ipairs under test).
+HOLES_LUA = r"""
+local HN = %(nummax)d
+local HS = {%(strprobes)s}
+local HC = {%(childkeys)s}
+local function hitem(k, v) return type(k) .. "\31" .. tostring(k) .. "\31" .. type(v) .. "\31" .. tostring(v) end
+local function henum(f, st, c)
+  local out, n = {}, 0
+  for k, v in f, st, c do
+    n = n + 1
+    if n > 40 then out[#out + 1] = "overflow" break end
+    out[#out + 1] = hitem(k, v)
+  end
+  return out
+end
+local HR = {}
+HR["pairs"] = function(fr) return henum(pairs(fr.args)) end
+HR["apairs"] = function(fr) return henum(fr:argumentPairs()) end
+HR["ipairs"] = function(fr) return henum(ipairs(fr.args)) end
+HR["next"] = function(fr)
+  local out, n = {}, 0
+  local k, v = next(fr.args)
+  while k ~= nil do
+    n = n + 1
+    if n > 40 then out[#out + 1] = "overflow" break end
+    out[#out + 1] = hitem(k, v)
+    k, v = next(fr.args, k)
+  end
+  return out
+end
+HR["num"] = function(fr)
+  local out = {}
+  for i = 1, HN do out[#out + 1] = hitem(i, fr.args[i]) end
+  return out
+end
+HR["str"] = function(fr)
+  local out = {}
+  for j = 1, #HS do out[#out + 1] = hitem(HS[j], fr.args[HS[j]]) end
+  return out
+end
+HR["get"] = function(fr)
+  local out = {}
+  for i = 1, HN do
+    local a = fr:getArgument(i)
+    if a ~= nil then a = a:expand() end
+    out[#out + 1] = hitem(i, a)
+  end
+  for j = 1, #HS do
+    local a = fr:getArgument{name = HS[j]}
+    if a ~= nil then a = a:expand() end
+    out[#out + 1] = hitem(HS[j], a)
+  end
+  return out
+end
+local function hrun(who, fr, reads, recs)
+  for j = 1, #reads do
+    local ok, out = pcall(HR[reads[j]], fr)
+    if not ok then out = {"error\31" .. tostring(out)} end
+    recs[#recs + 1] = who .. "\28" .. reads[j] .. "\28" .. table.concat(out, "\28")
+  end
+end
+local function hall(frame, reads)
+  local recs = {}
+  hrun("own", frame, reads, recs)
+  local parent = frame:getParent()
+  if parent then hrun("parent", parent, reads, recs) end
+  -- a child frame that is given the frame's own arguments (collected by indexing, not by enumerating)
+  local t = {}
+  for i = 1, HN do t[i] = frame.args[i] end
+  for j = 1, #HC do t[HC[j]] = frame.args[HC[j]] end
+  local child = frame:newChild{title = "Child", args = t}
+  hrun("child", child, reads, recs)
+  return "\29" .. table.concat(recs, "\30") .. "\29"
+end
+"""
+
+
+def holes_lua(info) -> str:
+    """Lua source of the hole family's readers from TLC's HOLES line; fills _G['horder'] (order -> function index)"""
+    orders = sorted(tuple(o) for o in info["orders"])
+    _G["horder"] = {o: j for j, o in enumerate(orders)}
+    src = HOLES_LUA % {"nummax": info["nummax"],
+                       "strprobes": ", ".join(json.dumps(tr.text(q["probe"])) for q in info["strprobes"]),
+                       "childkeys": ", ".join(json.dumps(tr.text(q["probe"])) for q in info["strprobes"] if not q["int"])}
+    for o, j in _G["horder"].items():
+        src += "function p.h%d(frame) return hall(frame, {%s}) end\n" % (j, ", ".join(json.dumps(r) for r in o))
+    return src
+
+
+def hole_pages(idx, c):
+    """(page text, [(template title, body)]) of one case of the hole family"""
+    fn = "h%d" % _G["horder"][tuple(c["reads"])]
+    if c["depth"] == 0:
+        return tr.render_item({"k": "inv", "fn": fn, "args": c["vec"]}), []
+    tpl = [(f"Template:Hw{idx}", "<" + tr.render_item({"k": "inv", "fn": fn, "args": c["fwd"]}) + ">")]
+    outer = f"Hw{idx}"
+    if c["depth"] == 2:
+        tpl.append((f"Template:Hv{idx}", tr.render_item({"k": "c", "name": f"Hw{idx}", "args": c["fwd"]})))
+        outer = f"Hv{idx}"
+    return tr.render_item({"k": "c", "name": outer, "args": c["vec"]}), tpl
 
 W1 = "<{{#invoke:{{{m}}}|{{{f}}}|{{{1}}}|x={{{x}}}|2={{{2}}}}}>"
 W2 = "{{%s|{{{1}}}|x={{{x}}}|2={{{2}}}|m={{{m}}}|f={{{f}}}}}"
@@ -133,19 +241,36 @@ def chunk_fn(chunk):
             luastub.install(ctx)
             src = PRELUDE
             for idx, c in chunk:
-                src += FN % {"fn": f"f{idx}", "frag": lua_long(tr.render(c["frag"])), "s1": json.dumps(tr.text(c["s1"])), "s2": json.dumps(tr.text(c["s2"]))}
+                if c["fam"] != "holes":
+                    src += FN % {"fn": f"f{idx}", "frag": lua_long(tr.render(c["frag"])), "s1": json.dumps(tr.text(c["s1"])), "s2": json.dumps(tr.text(c["s2"]))}
+            src += holes_lua(_G["holes"])
             src += "return p\n"
             install_store(ctx, _G["adds"], src)
             tr.install(ctx, lib)
             # one forwarding template per route: its body calls the wrapper under that spelling
             w2 = {}
+            hpages = {}
             for idx, c in chunk:
+                if c["fam"] == "holes":
+                    hpages[idx], tpls = hole_pages(idx, c)
+                    for title, body in tpls:
+                        ctx.add_page(title, 10, body=body)
+                    continue
                 sp = written(c["route"])
                 if c["depth"] == 2 and sp not in w2:
                     w2[sp] = f"W2r{len(w2)}"
                     ctx.add_page("Template:" + w2[sp], 10, body=W2 % sp)
             ctx.db_conn.commit()
             for idx, c in chunk:
+                if c["fam"] == "holes":
+                    ob = {"idx": idx, "page": hpages[idx]}
+                    try:
+                        ctx.start_page("Pg")
+                        ob["raw"] = ctx.expand(hpages[idx])
+                    except Exception as e:  # noqa: BLE001
+                        ob["exc"] = repr(e)
+                    out.append(ob)
+                    continue
                 a1, a2, a3 = tr.render(c["a1"]), tr.render(c["a2"]), tr.render(c["a3"])
                 sp = written(c["route"])
                 outer = sp if c["depth"] == 1 else w2.get(sp)
@@ -174,7 +299,151 @@ def chunk_fn(chunk):
     return out
 
 
+WHO = {"own": "frame", "parent": "frame:getParent()", "child": "frame:newChild{args = <the frame's own arguments>}"}
+WHOSE = {"own": "the #invoke call's arguments", "parent": "the arguments of the call of the enclosing template",
+         "child": "the arguments the child frame was given"}
+ENUM = {"pairs": "pairs(%s.args)", "apairs": "%s:argumentPairs()", "next": "next(%s.args, k) from nil"}
+
+
+def hkey(b):
+    s = tr.text(b["key"])
+    return int(s) if b["int"] else s
+
+
+def hshow(m) -> str:
+    return "{" + ", ".join(f"{k!r}: {v!r}" for k, v in sorted(m.items(), key=lambda kv: (isinstance(kv[0], str), kv[0]))) + "}"
+
+
+def parse_holes(raw, pre, post):
+    """[(who, reader, [item tuple, ...])] or None when the envelope is broken"""
+    parts = raw.split(SEP)
+    if len(parts) != 3 or parts[0] != pre or parts[2] != post:
+        return None
+    recs = []
+    for rec in parts[1].split(RS):
+        f = rec.split(FS)
+        if len(f) < 2:
+            return None
+        recs.append((f[0], f[1], [tuple(x.split(US)) for x in f[2:] if x]))
+    return recs
+
+
+def typed(items):
+    """items of an enumeration -> [(key, value)], None when an item is not (number|string key, string value)"""
+    out = []
+    for it in items:
+        if len(it) != 4 or it[0] not in ("number", "string") or it[2] != "string":
+            return None
+        try:
+            out.append((int(float(it[1])) if it[0] == "number" else it[1], it[3]))
+        except ValueError:
+            return None
+    return out
+
+
+def judge_holes(o: Outcome, c, e, ob):
+    o.evaluations += 1
+    info = _G["holes"]
+    case = {"page": ob["page"], "family": "holes", "depth": c["depth"], "reads_in_order": c["reads"]}
+    if c["depth"] > 0:
+        case["invoke_in_wrapper"] = tr.render_item({"k": "inv", "fn": "h", "args": c["fwd"]})
+    if "exc" in ob:
+        o.violation({**case, "exception": ob["exc"]}, f"expand() raised {ob['exc']}", cls="exception")
+        return
+    pre, post = ("<", ">") if c["depth"] > 0 else ("", "")
+    recs = parse_holes(ob["raw"], pre, post)
+    whos = ["own"] + (["parent"] if e["hasParent"] else []) + ["child"]
+    if recs is None or [(w, r) for w, r, _ in recs] != [(w, r) for w in whos for r in c["reads"]]:
+        o.violation({**case, "got": ob["raw"][:400]}, "the string returned by the module does not replace the #invoke call verbatim", cls="envelope")
+        return
+    views = {"own": e["own"], "parent": e["parent"], "child": e["own"]}
+    nprobes = list(range(1, info["nummax"] + 1))
+    sprobes = [tr.text(q["probe"]) for q in info["strprobes"]]
+    stats = _G.setdefault("hstats", {"reads": 0, "enumerations": 0, "enumerations_in_call_order": 0, "maps_with_a_hole": 0})
+    failed = {}     # (who, class) -> (why, details): one report per frame and class of read
+    for who, reader, items in recs:
+        view = views[who]
+        emap = {hkey(b): tr.text(b["val"]) for b in view["map"]}
+        eseq = [tr.text(v) for v in view["seq"]]
+        frame = WHO[who]
+        stats["reads"] += 1
+        if items and items[0][0] in ("error", "overflow") or any(it[0] == "overflow" for it in items):
+            what = "raised " + items[0][1] if items[0][0] == "error" else "does not end (more than 40 pairs)"
+            failed.setdefault((who, "fails/" + reader), (f"reading the arguments of {frame} by {reader} {what}; {WHOSE[who]} are {hshow(emap)}", {"reader": reader}))
+            continue
+        if reader in ENUM:
+            expr = ENUM[reader] % frame
+            got = typed(items)
+            stats["enumerations"] += 1
+            if got is None:
+                failed.setdefault((who, "enumeration"), (f"{expr} yields keys / values that are not arguments: {items!r}", {"reader": reader}))
+                continue
+            gmap = dict(got)
+            if got == [(hkey(b), tr.text(b["val"])) for b in view["map"]]:
+                stats["enumerations_in_call_order"] += 1
+            if gmap != emap:
+                missing = [k for k in emap if k not in gmap]
+                extra = [k for k in gmap if k not in emap]
+                wrong = [k for k in emap if k in gmap and gmap[k] != emap[k]]
+                why = f"{expr} yields {hshow(gmap)}, but {WHOSE[who]} are {hshow(emap)}"
+                if missing:
+                    behind = [k for k in missing if isinstance(k, int) and k > len(eseq)]
+                    why += f": the argument(s) {missing!r} are missing from the enumeration"
+                    if behind and behind == missing:
+                        why += f" (numeric keys behind a hole in the numbering: 1..{len(eseq)} are contiguous)" if eseq else " (numeric keys, and there is no argument 1)"
+                    # does indexing still answer?  (the same frame, read by number in the same invocation)
+                    numrec = next((it for w, r, it in recs if w == who and r == "num"), None)
+                    if numrec and all(isinstance(k, int) and k <= len(numrec) and numrec[k - 1][2:] == ("string", emap[k]) for k in missing):
+                        why += f" although {frame}.args[k] answers for each of them"
+                if extra:
+                    why += f"; {extra!r} are no arguments of the call"
+                if wrong:
+                    why += f"; wrong value for {wrong!r}"
+                failed.setdefault((who, "enumeration"), (why, {"reader": reader, "got": {str(k): v for k, v in gmap.items()}, "specification": {str(k): v for k, v in emap.items()}}))
+            elif len(got) != len(gmap) and who != "child":
+                # the same key twice: the SET is right; beyond the statement
+                o.note_drift({**case, "what": f"{expr} yields a key more than once", "got": got})
+        elif reader == "ipairs":
+            expr = f"ipairs({frame}.args)"
+            got = typed(items)
+            want = list(enumerate(eseq, 1))
+            if got is None or any(k not in emap or emap[k] != v for k, v in got):
+                failed.setdefault((who, "ipairs"), (f"{expr} yields {items!r}: not arguments of the call ({WHOSE[who]} are {hshow(emap)})", {"reader": reader}))
+            elif got[:len(want)] != want:
+                failed.setdefault((who, "ipairs"), (f"{expr} yields {got!r}, but the arguments numbered 1..{len(want)} without a hole are {want!r} ({WHOSE[who]} are {hshow(emap)})", {"reader": reader}))
+            elif got != want and who != "child":
+                # walks on behind a hole with right pairs: not Lua's ipairs, but nothing the statement excludes
+                o.note_drift({**case, "what": f"{expr} does not stop at the first hole", "got": got, "specification": want})
+        else:
+            probes = nprobes if reader == "num" else sprobes if reader == "str" else nprobes + sprobes
+            looks = view["num"] if reader == "num" else view["str"] if reader == "str" else view["num"] + view["str"]
+            how = {"num": "%s.args[%r]", "str": "%s.args[%r]", "get": "%s:getArgument(%r):expand()"}[reader]
+            bad = []
+            if len(items) != len(probes):
+                bad.append("wrong number of answers")
+            else:
+                for q, look, it in zip(probes, looks, items):
+                    want = ("string", tr.text(look["val"])) if look["has"] else ("nil", "nil")
+                    if tuple(it[2:]) != want:
+                        bad.append((how % (frame, q)) + " is " + (repr(it[3]) if it[2] == "string" else f"{it[3]} ({it[2]})") + ", the call's argument is "
+                                   + (repr(want[1]) if look["has"] else "absent"))
+            if bad:
+                failed.setdefault((who, "indexing"), ("; ".join(bad[:4]) + f" ({WHOSE[who]} are {hshow(emap)})", {"reader": reader}))
+    for (who, cls), (why, det) in failed.items():
+        if who == "child":
+            # frames made by newChild are not part of the statement
+            o.note_drift({**case, "what": "arguments of a frame made by frame:newChild", "why": why, **det})
+        else:
+            o.violation({**case, **det, "what": ("frame.args" if who == "own" else "parent args") + " / " + cls}, why, cls=f"holes/{who}/{cls}")
+    emap0 = {hkey(b) for b in e["own"]["map"]}
+    if any(isinstance(k, int) and k > len(e["own"]["seq"]) for k in emap0):
+        stats["maps_with_a_hole"] += 1
+    o.shape(("holes", common.json_key(c["vec"]), c["depth"], tuple(c["reads"])))
+
+
 def judge(o: Outcome, c, e, ob):
+    if c["fam"] == "holes":
+        return judge_holes(o, c, e, ob)
     o.evaluations += 1
     case = {"page": ob["page"], "fragment": tr.render(c["frag"]), "lua_strings": [tr.text(c["s1"]), tr.text(c["s2"])], "depth": c["depth"]}
     if c["depth"] > 0:
@@ -284,7 +553,9 @@ def run(tier: str) -> int:
     o.rule = ("each (wrapper depth, positional value, named value, fragment, Lua strings) of Gen_LuaFrame is one case of family 'args' "
               "(wrapper called by its stored name); each (route = spelling / redirect by which the page holding the #invoke is reached, "
               "depth 1..2, from wikitext | through frame:expandTemplate, value) is one case of family 'route'; "
-              "distinct by (values, depth, fragment, route, via)")
+              "distinct by (values, depth, fragment, route, via); each (argument vector of 1..3 (thorough: ..4) positional / numeric-named / "
+              "string-named arguments, depth 0..2, order of reads) is one case of family 'holes', every read of the own / parent / child frame compared "
+              "with TLC's view of the one argument map; distinct by (vector, depth, order)")
     o.assumptions = ["Lua runs with pure-Lua stand-ins for ustring/libraryUtil", "callParserFunction/expandTemplate receive plain strings",
                      "the equivalent call of expandTemplate{title,args} is the all-named call {{title|k=v|...}}",
                      "the enclosing template of an #invoke is the page whose body is expanded (for a redirect: its target), titles as stored by add_page"]
@@ -294,6 +565,8 @@ def run(tier: str) -> int:
     cases = r.cases
     store = r.tagged("STORE")[0]
     _G["adds"] = store["adds"]
+    _G["holes"] = r.tagged("HOLES")[0]
+    _G.pop("hstats", None)
     o.extra["routes"] = {"reaching_a_wrapper": store["routes"], "going_nowhere_not_run": store["unreachable"],
                          "route_cases": sum(1 for c in cases if c["case"]["fam"] == "route"),
                          "laws_checked_by_TLC": ["TitleLaws (code path == reference on every route, supplier is a stored non-redirect page)",
@@ -309,6 +582,9 @@ def run(tier: str) -> int:
     for ob in res:
         judge(o, cases[ob["idx"]]["case"], cases[ob["idx"]]["exp"], ob)
         o.traces += 1
+    o.extra["holes"] = {"shapes": _G["holes"]["shapes"], "cases": _G["holes"]["cases"], "orders_of_reads": _G["holes"]["orders"],
+                        "laws_checked_by_TLC": ["HolesDepthIndependent", "HolesAgreeWithArgViews (ArgViews!ArgMap, ViewLua)", "HolesUniverseLaws (non-vacuity)"],
+                        **_G.get("hstats", {})}
     o.exhaustive = True
     ob0 = res[len(res) // 2]
     o.sample({"page": ob0["page"], "returned": ob0.get("raw", "")[:300]})
@@ -324,8 +600,14 @@ def replay(path: str) -> int:
 def selftest() -> int:
     r = tlc("Gen_LuaFrame", "Gen_LuaFrame_Q.cfg", workers=1)
     _G["adds"] = r.tagged("STORE")[0]["adds"]
+    _G["holes"] = r.tagged("HOLES")[0]
     routed = [c for c in r.cases if c["case"]["fam"] == "route"]
-    cases = r.cases[:40] + routed[:: max(1, len(routed) // 40)]
+    holed = [c for c in r.cases if c["case"]["fam"] == "holes"]
+    cases = [c for c in r.cases if c["case"]["fam"] == "args"][:40] + routed[:: max(1, len(routed) // 40)] + holed[:: max(1, len(holed) // 60)]
+    # an argument behind a hole dropped from the map the enumerations are compared with must be rejected as well
+    h = next(c for c in cases if c["case"]["fam"] == "holes" and c["case"]["depth"] == 0 and len(c["exp"]["own"]["map"]) == 3
+             and any(b["int"] and b["key"] == ["3"] for b in c["exp"]["own"]["map"]) and len(c["exp"]["own"]["seq"]) == 1)
+    h["exp"]["own"]["map"] = [b for b in h["exp"]["own"]["map"] if b["key"] != ["3"]]
     cases[3]["exp"]["pre"] = ["CORRUPT"]
     # a stored title spelt otherwise must be rejected too
     k = next(i for i, c in enumerate(cases) if c["case"]["fam"] == "route" and c["exp"]["redirect"])
@@ -337,7 +619,7 @@ def selftest() -> int:
                  "((": [{"w": "plain", "c": [tr.T(["{{"])]}], "))": [{"w": "plain", "c": [tr.T(["}}"])]}]}
     for ob in chunk_fn([(i, c["case"]) for i, c in enumerate(cases)]):
         judge(o, cases[ob["idx"]]["case"], cases[ob["idx"]]["exp"], ob)
-    print("violations after corrupting two expectations (preprocess text, parent title of a redirect route):", len(o.violations))
+    print("violations after corrupting three expectations (preprocess text, parent title of a redirect route, argument map of a vector with a hole):", len(o.violations))
     for v in o.violations:
         print("  ", str(v.get("why", v))[:200])
-    return 0 if len(o.violations) == 2 else 1
+    return 0 if len(o.violations) == 3 else 1
